@@ -206,6 +206,35 @@ def run(tier):
                 for osd in ("b", "a", "d"):
                     plans.append({"kind": "hist", "slots": 8, "ops": ops, "os": osd, "walk": True,
                                   "src": "directed-two-free-chunks-in-one-tree-bin"})
+    # periodic cycles on the simulated OS, judged EXACTLY (MarksSteady: no tolerance): allocate a block
+    # above the trim threshold (alone / behind a small one / two of them), free everything, 2 000 times
+    # under one fixed placement policy (above: the new mapping lands directly behind the segment that
+    # holds top and extends it; below: prepend; disjoint: new segment + release); mapped bytes at a mark
+    # after the baseline must never exceed those at a baseline mark - a segment that creeps by a few
+    # bytes per cycle shows as soon as it needs one more granule.  Debug build too (internal assertions).
+    cyc_reps = 2000 if quick else 6000
+    cycle_plans = []
+    for blocks in ([classes[-1]], [classes[0], classes[-1]], [classes[-1], classes[-1]]):
+        for osd in ("a", "b", "d"):
+            cycle_plans.append({"kind": "work", "blocks": blocks, "free": "lifo", "reps": cyc_reps, "base": cyc_reps // 40,
+                                "mark_every": 20, "os": osd, "quiet": True, "envelope": False, "exact": True,
+                                "watchdog": 600, "src": "exact-cycle"})
+    plans += cycle_plans
+    # directed family "shrink in place with a live neighbour": rounds of (allocate a big block A, a small
+    # block B right behind it, realloc A down to very little): the cut-off tail must be reusable - the next
+    # round's big block fits into it, no new OS memory may be asked for while such a tail is free
+    for big_sz in (100000, 1 << 20, 3 << 20):
+        for small_sz in (40, 1016):
+            for down in (16, big_sz // 2, big_sz - 4096):
+                ops = []
+                fit = max(64, (big_sz - down) - 8192 if big_sz - down > 16384 else (big_sz - down) // 2)
+                for r in range(4):
+                    # A big, B small right behind it, A shrunk in place, then C that fits the cut-off tail
+                    ops += [["m", 3 * r, big_sz, 16], ["m", 3 * r + 1, small_sz, 16], ["r", 3 * r, down], ["m", 3 * r + 2, fit, 16]]
+                ops += [["f", x] for x in range(12)]
+                for osd in ("b", "a", "d"):
+                    plans.append({"kind": "hist", "slots": 12, "ops": ops, "os": osd, "walk": True,
+                                  "src": "directed-shrink-in-place-with-live-neighbour"})
     # multi-threaded: T threads share one allocator behind tiny-std's own Mutex (lock, one call,
     # unlock - the composition GlobalDlMalloc uses); each thread repeats a TLC-generated workload
     n_mt = 12 if quick else 150
@@ -250,7 +279,7 @@ def run(tier):
                            "series": True, "spacers": i % 3 == 2, "watchdog": 600, "src": "real-os-long"})
     # debug build (assertions on) for the TLC workloads, release build for the rest;
     # processed in chunks so that memory stays bounded
-    jobs = [("debug", bin_dbg, plans[:n_tlc]), ("release", bin_rel, plans[n_tlc:])]
+    jobs = [("debug", bin_dbg, plans[:n_tlc]), ("release", bin_rel, plans[n_tlc:]), ("debug-cycles", bin_dbg, cycle_plans)]
     CH = 1200
     work = [(build, bindir, pl[i:i + CH], i, False) for build, bindir, pl in jobs for i in range(0, len(pl), CH)]
     work += [("debug-realos", bin_dbg, real_plans, 0, True), ("release-realos", bin_rel, real_plans, 0, True)]
@@ -268,7 +297,7 @@ def run(tier):
         runs, bad = A.judge(chk, events, "%s_%d" % (build, off), procs=6, cfg=cfg)
         core.log("%s build, plans %d..%d: driver done at +%.1fs (%d events), TLC judge %.1fs" % (
             build, off, off + len(pl), t1 - t0, len(events), time.time() - t1))
-        A.report(chk, runs, bad, pl, A.C04_INV, k, build)
+        A.report(chk, runs, bad, pl, A.C04_INV + ["Returns"], k, build)
         stats["crashes"] += len(crashes)
         stats["runs"] += len(runs)
         stats["events"] += len(events)
@@ -338,6 +367,8 @@ def run(tier):
         "real-OS runs (raw syscall wrappers against the real kernel): footprint = growth of the process' VmSize, which also contains whatever the recorder itself maps (its output buffer is pre-reserved); only SteadyState is judged there (60 repetitions, baseline 30)",
         "SteadyState is judged only where the OS policy is the same in every repetition (always below / above / disjoint); runs with a random placement per mapping are judged by Envelope, NoGratuitousMap, ReleaseOnce only",
         "long real-OS runs (2000 repetitions, marks every 100): only the three footprint series (VmSize growth, number of mappings at 8 KiB each, VmSize growth minus the allocator's own footprint) are judged, by SteadyState; the calls themselves are checked by the recorder but not logged",
+        "a C04 workload that does not complete (panic of a debug assertion, fault, watchdog) is reported too (Returns): a repetition that cannot be repeated shows nothing about the footprint",
+        "MarksSteady (exact, no tolerance) is judged only on the periodic exact-cycle runs (one fixed placement policy, allocate big / free, 2 000 cycles)",
         "never trimming alone does not violate the property as stated (held memory stays bounded by peak demand) and is not flagged",
         "multi-threaded runs: 2-4 std threads share one Dlmalloc behind tiny_std::sync::Mutex (lock, one call, unlock; the recorder sits in the same critical section so the log order is the execution order) - the composition of the private GlobalDlMalloc wrapper, which itself is only compiled with feature global-allocator and cannot be enabled in a std-linked harness (the real wrapper is exercised by the add-on part global_allocator_part in a no-libc probe); thread interleavings are whatever the OS scheduler produces (not controlled), therefore SteadyState is not judged on these runs (the concurrent demand differs between repetitions), Envelope / NoGratuitousMap / ReleaseOnce are",
     ]
